@@ -413,7 +413,10 @@ class SchedulingSolver(BaseModelWithJson):
             if not isinstance(assts, list):
                 assts = [assts]
             for asst in assts:
-                asst_identifier = f"asst_{uuid.uuid4().hex[:8]}"
+                # the whole uuid: with 8 hex digits only, two tracking literals
+                # collide every few tens of thousands of assertions and z3 then
+                # refuses the second one ("named assertion defined twice")
+                asst_identifier = f"asst_{uuid.uuid4().hex}"
                 self._solver.assert_and_track(asst, asst_identifier)
                 # if the higher_contraint_name is defined, fill in the map_boolrefs_to_geometric_constraints dict
                 # to track the constraint that causes the conflict
